@@ -11,5 +11,12 @@ def runnerAlign : Nat := 128
 def stDone : Nat := 1
 def stUninit : Nat := 0
 def wordBits : Nat := 64
+def lifeClearKey : List Nat := [4, 0, 1, 3]
+def lifeClearNo : List Nat := [4, 3]
+def lifeCtorKey : List Nat := [1]
+def lifeCtorNo : List Nat := []
+def lifeDtorKey : List Nat := [0, 1, 3, 4, 0]
+def lifeDtorNo : List Nat := [3, 4]
+def lifeTlsLookup : Bool := true
 
 end TbbVerif.Generated.C19
